@@ -424,6 +424,21 @@ def r6(ctx):
             n18 += 1
             ctx.ob("R6", k, o["ok"], o["detail"], where=o["where"], nontrivial=o.get("nontrivial", True))
     ctx.floor("R6", "payload-construction obligations shared with C18", n18, 3)
+    # the library's replace call and `sg test`'s `fixed` apply make_edit's Edit through Content::accept_edit: it splices exactly
+    # position..position+deleted_length with inserted_text (the C10 R2 obligations) — an "optimised" splice applies another edit
+    from . import c10
+    sub10 = ctx.prog.__dict__.get("_c10_sub")
+    if sub10 is None:
+        sub10 = Ctx("C10", ctx.tier, ctx.prog)
+        c10.run(sub10)
+        ctx.prog.__dict__["_c10_sub"] = sub10
+    n10 = 0
+    for o in sub10.obligations:
+        k = o["key"].split(":", 1)[1]
+        if o["rule"] == "R2" and ("_byte" in k or "splice text" in k):
+            n10 += 1
+            ctx.ob("R6", "library edit/" + k, o["ok"], o["detail"], where=o.get("where"), nontrivial=o.get("nontrivial", True))
+    ctx.floor("R6", "accept_edit obligations shared with C10 R2", n10, 4)
 
 
 from ..query import TRANSPARENT
